@@ -18,6 +18,7 @@
    (D36, D37); the last section refutes the statements for the code before. *)
 From Coq Require Import List ZArith Bool Arith Permutation.
 From NT Require Import Sx Rose Export ExportProofs.
+From NT Require CaseC17.   (* the correspondence entry point is rebuilt with the obligations *)
 From NTGen Require Import Generated.
 Import ListNotations.
 
@@ -284,6 +285,11 @@ Proof.
   vm_compute. repeat split; try tauto.
   intros H. repeat (destruct H as [H|H]; [discriminate H|]). exact H.
 Qed.
+
+(* the correspondence entry point on the example: whole tree and two start nodes *)
+Example ex_run17 :
+  match CaseC17.run17 (ex_root, [0; 1; 3]%Z) with L [L [L d0; L m0; L [_]]; L [_; _; L [_; _]]; L [_; _; L [_; _]]] => length d0 = 4 /\ length m0 = 4 | _ => False end.
+Proof. vm_compute. split; reflexivity. Qed.
 
 (* ============================================ the code before the repairs *)
 (* D36: node_to_dot(add_self=True, unique_nodes=True) did not record the start
